@@ -358,8 +358,9 @@ class Engine:
             raise Abort()
         return m
 
-    def explore(self, fn):
-        """run fn() once per feasible decision sequence; returns list[PathResult]"""
+    def explore(self, fn, stop=None):
+        """run fn() once per feasible decision sequence; returns list[PathResult]
+        stop(result) -> True ends the exploration early (used by existential twins only, never by a verdict)"""
         prev = Engine.cur
         Engine.cur = self
         self.running = True
@@ -389,6 +390,8 @@ class Engine:
                     self.stats["aborted"] += 1
                     continue
                 results.append(PathResult(r, [c for c, _ in self.trace], m, status, info))
+                if stop is not None and stop(results[-1]):
+                    break
         finally:
             self.running = False
             Engine.cur = prev
